@@ -4886,6 +4886,15 @@ impl<'a> SpanTotal<'a> {
             self.unit,
             sign.rinto(),
         )?;
+        if relative0 == relative1 {
+            return Err(err!(
+                "cannot compute total {unit} because one {singular} \
+                 relative to the given datetime has zero length \
+                 (it falls entirely within a time zone transition)",
+                unit = self.unit.plural(),
+                singular = self.unit.singular(),
+            ));
+        }
         let denom = (relative1 - relative0).get() as f64;
         let numer = (relative_end.to_nanosecond() - relative0).get() as f64;
         let unit_val = relspan.span.get_units_ranged(self.unit).get() as f64;
@@ -6459,6 +6468,15 @@ impl Nudge {
         // used so far in Jiff. We do expose floating point for things like
         // `Span::total`, but that's optional and not a core part of Jiff's
         // functionality. This is in the core part of Jiff's span rounding...
+        if relative0 == relative1 {
+            return Err(err!(
+                "cannot round to {unit} because one {singular} relative \
+                 to the given datetime has zero length (it falls entirely \
+                 within a time zone transition)",
+                unit = smallest.plural(),
+                singular = smallest.singular(),
+            ));
+        }
         let denom = (relative1 - relative0).get() as f64;
         let numer = (relative_end.to_nanosecond() - relative0).get() as f64;
         let exact = (truncated.get() as f64)
